@@ -65,9 +65,9 @@ extern int __real_pthread_getaffinity_np(pthread_t, size_t, cpu_set_t *);
 
 enum { TS_UNUSED = 0, TS_READY, TS_BLOCKED, TS_DONE };
 enum { BLK_NONE = 0, BLK_FUTEX, BLK_LOCKPI, BLK_SEM, BLK_EPOLL, BLK_SLEEP,
-	BLK_PRED, BLK_JOIN };
+	BLK_PRED, BLK_JOIN, BLK_IDLE };
 static const char *const blk_names[] = { "-", "futex", "lock_pi", "sem",
-	"epoll", "sleep", "pred", "join" };
+	"epoll", "sleep", "pred", "join", "idle" };
 
 // point kinds (for the trace); 0..5 are the atomic kinds of the hook
 enum { K_LOAD = 0, K_STORE, K_XCHG, K_CAS, K_RMW, K_FENCE, K_SPIN,
@@ -98,6 +98,7 @@ typedef struct vx_thr {
 	int harness_thread;
 	void (*hfn)(void *);
 	char note[24];
+	int cur_kind;
 } vx_thr;
 
 static vx_thr g_thr[VX_MAXT];
@@ -109,6 +110,8 @@ static vx_result *g_res;
 static uint64_t g_vt, g_step, g_stepcap, g_blkseq;
 static uint64_t g_horizon = 30 * NSEC;
 static int g_focus, g_timedev, g_trace;
+static int g_io_only;              // C14: branch only at I/O syscalls on watched fds
+static int g_fault_budget, g_fault_pending;   // at most one injected I/O answer per execution
 static uint32_t g_pi;              // next prefix entry
 static uint64_t g_hash = 1469598103934665603ull;
 static int g_ncpu = 2;
@@ -314,11 +317,24 @@ static void vx_schedule(vx_thr *self)
 	vx_thr *target;
 	if (g_step > g_stepcap) vx_finish(V_STEPCAP, "step cap %llu reached", (unsigned long long)g_stepcap);
 	for (;;) {
-		int en[VX_MAXT], n = 0;
+		int en[VX_MAXT], n = 0, idle[VX_MAXT], ni = 0;
 		int self_en = thread_enabled(self);
 		if (self_en) en[n++] = self->idx;
-		for (int i = 0; i < g_nthr; i++)
-			if (i != self->idx && thread_enabled(&g_thr[i])) en[n++] = i;
+		for (int i = 0; i < g_nthr; i++) {
+			if (i == self->idx) continue;
+			if (g_thr[i].state == TS_BLOCKED && g_thr[i].blk == BLK_IDLE) idle[ni++] = i;
+			else if (thread_enabled(&g_thr[i])) en[n++] = i;
+		}
+		if (self->state == TS_BLOCKED && self->blk == BLK_IDLE) { idle[ni++] = self->idx; }
+		int at_io = (self_en && self->cur_kind == K_IO);
+		if (n == 0 && ni > 0) {
+			// quiescence: the environment (idle-waiting peers) makes its next move
+			for (int i = 0; i < ni; i++) en[n++] = idle[i];
+			ni = 0;
+		} else if (at_io && g_focus) {
+			// the peer's next move may also land right before this I/O syscall (a deviation)
+			for (int i = 0; i < ni; i++) en[n++] = idle[i];
+		}
 		if (n == 0) {
 			uint64_t d;
 			if (!collect_deadlines(&d, 1)) {
@@ -328,13 +344,20 @@ static void vx_schedule(vx_thr *self)
 			advance_time(d, 1);
 			continue;
 		}
-		uint64_t dl[3]; int nd = 0;
+		uint64_t dl[3]; int nd = 0, nf = 0;
 		if (g_focus && g_timedev) {
 			nd = collect_deadlines(dl, 2);
 			while (nd > 0 && dl[nd - 1] > g_horizon) nd--;   // never jump past the horizon by choice
 		}
-		int total = n + nd, choice = 0;
-		if (g_focus && total > 1) choice = next_choice(total, n, self_en);
+		if (g_focus && at_io && g_fault_budget > 0) nf = 2;   // short transfer, EINTR (a spurious EAGAIN cannot happen on a pipe/file whose state we own)
+		int total = n + nd + nf, choice = 0;
+		if (g_focus && total > 1 && (!g_io_only || at_io)) choice = next_choice(total, n, self_en);
+		if (choice >= n + nd) {
+			g_fault_pending = choice - (n + nd) + 1; g_fault_budget--;
+			if (g_trace) fprintf(stderr, "[vx]   choice %d/%d: inject I/O answer %d\n", choice, total, g_fault_pending);
+			target = self;
+			break;
+		}
 		if (choice >= n) {
 			if (g_trace) fprintf(stderr, "[vx]   choice %d/%d: deadline elapses first\n", choice, total);
 			advance_time(dl[choice - n], 0);
@@ -342,6 +365,7 @@ static void vx_schedule(vx_thr *self)
 		}
 		if (g_trace && total > 1) fprintf(stderr, "[vx]   choice %d/%d -> T%d\n", choice, total, en[choice]);
 		target = &g_thr[en[choice]];
+		if (target->state == TS_BLOCKED && target->blk == BLK_IDLE) { target->state = TS_READY; target->blk = BLK_NONE; }
 		break;
 	}
 	switch_to(self, target);
@@ -350,6 +374,7 @@ static void vx_schedule(vx_thr *self)
 static inline void vx_step(vx_thr *self, int kind, const void *addr)
 {
 	g_step++;
+	self->cur_kind = kind;
 	hash_mix(((uint64_t)self->idx << 8) | (uint64_t)kind);
 	if (g_trace) fprintf(stderr, "[vx] %5llu T%d %s %p\n", (unsigned long long)g_step,
 			self->idx, kind_names[kind], addr);
@@ -437,6 +462,14 @@ void vx_sleep_ns(uint64_t ns)
 	vx_step(self, K_SLEEP, NULL);
 	vx_block(self, BLK_SLEEP, NULL, g_vt + ns);
 }
+
+void vx_wait_idle(void)
+{
+	vx_thr *self = vx_me;
+	vx_step(self, K_WAITPRED, NULL);
+	vx_block(self, BLK_IDLE, NULL, NODL);
+}
+void vx_set_io_only(int on, int faults) { g_io_only = on; g_fault_budget = faults; }
 
 int vx_epoll_armed(int fd)
 {
@@ -820,6 +853,96 @@ int __wrap_close(int fd)
 		for (int i = 0; i < VX_MAXEP; i++) if (g_ep[i].used && g_ep[i].fd == fd) g_ep[i].used = 0;
 	}
 	return __real_close(fd);
+}
+
+// ---------------------------------------------------------------------------
+// I/O syscalls of the library on descriptors the harness watches (C14)
+
+extern ssize_t __real_read(int, void *, size_t);
+extern ssize_t __real_write(int, const void *, size_t);
+extern ssize_t __real_pread(int, void *, size_t, off_t);
+extern ssize_t __real_pwrite(int, const void *, size_t, off_t);
+#define VX_MAXIOFD 8
+#define VX_IOLOG 8192
+static struct { int fd; unsigned char in[VX_IOLOG]; size_t nin; unsigned char out[VX_IOLOG]; size_t nout; } g_io[VX_MAXIOFD];
+static int g_nio;
+
+void vx_io_watch(int fd)
+{
+	if (g_nio >= VX_MAXIOFD) vx_finish(V_ENGINE, "too many watched fds");
+	memset(&g_io[g_nio], 0, sizeof g_io[0]); g_io[g_nio].fd = fd; g_nio++;
+}
+static int io_slot(int fd)
+{
+	if (!g_active || !vx_me) return -1;
+	for (int i = 0; i < g_nio; i++) if (g_io[i].fd == fd) return i;
+	return -1;
+}
+static int io_slot_any(int fd) { for (int i = 0; i < g_nio; i++) if (g_io[i].fd == fd) return i; return -1; }
+const unsigned char *vx_io_consumed(int fd, size_t *n) { int s = io_slot_any(fd); if (s < 0) { *n = 0; return NULL; } *n = g_io[s].nin; return g_io[s].in; }
+const unsigned char *vx_io_written(int fd, size_t *n) { int s = io_slot_any(fd); if (s < 0) { *n = 0; return NULL; } *n = g_io[s].nout; return g_io[s].out; }
+ssize_t vx_real_read(int fd, void *b, size_t n) { return __real_read(fd, b, n); }
+ssize_t vx_real_write(int fd, const void *b, size_t n) { return __real_write(fd, b, n); }
+int vx_real_close(int fd) { return __real_close(fd); }
+
+// returns 0 = perform normally, 1 = short transfer of one byte, 2 = EINTR, 3 = EAGAIN
+static int io_point(int fd)
+{
+	g_fault_pending = 0;
+	vx_pt(K_IO, (void *)(intptr_t)fd);
+	int f = g_fault_pending; g_fault_pending = 0;
+	return f;
+}
+static void io_log(int s, int out, const void *b, ssize_t r)
+{
+	if (r <= 0) return;
+	unsigned char *dst = out ? g_io[s].out : g_io[s].in; size_t *n = out ? &g_io[s].nout : &g_io[s].nin;
+	size_t k = (size_t)r; if (*n + k > VX_IOLOG) k = VX_IOLOG - *n;
+	memcpy(dst + *n, b, k); *n += k;
+}
+ssize_t __wrap_read(int fd, void *b, size_t n)
+{
+	int s = io_slot(fd);
+	if (s < 0) return __real_read(fd, b, n);
+	int f = io_point(fd);
+	if (f == 2) { errno = EINTR; return -1; }
+	if (f == 3) { errno = EAGAIN; return -1; }
+	ssize_t r = __real_read(fd, b, (f == 1 && n > 1) ? 1 : n);
+	io_log(s, 0, b, r);
+	if (g_trace) fprintf(stderr, "[vx]       read(%d, %zu) = %zd%s\n", fd, n, r, f ? " (injected short read)" : "");
+	return r;
+}
+ssize_t __wrap_write(int fd, const void *b, size_t n)
+{
+	int s = io_slot(fd);
+	if (s < 0) return __real_write(fd, b, n);
+	int f = io_point(fd);
+	if (f == 2) { errno = EINTR; return -1; }
+	if (f == 3) { errno = EAGAIN; return -1; }
+	ssize_t r = __real_write(fd, b, (f == 1 && n > 1) ? 1 : n);
+	io_log(s, 1, b, r);
+	if (g_trace) fprintf(stderr, "[vx]       write(%d, %zu) = %zd%s\n", fd, n, r, f ? " (injected short write)" : "");
+	return r;
+}
+ssize_t __wrap_pread(int fd, void *b, size_t n, off_t off)
+{
+	int s = io_slot(fd);
+	if (s < 0) return __real_pread(fd, b, n, off);
+	int f = io_point(fd);
+	if (f == 2 || f == 3) { errno = EINTR; return -1; }
+	ssize_t r = __real_pread(fd, b, (f == 1 && n > 1) ? 1 : n, off);
+	io_log(s, 0, b, r);
+	return r;
+}
+ssize_t __wrap_pwrite(int fd, const void *b, size_t n, off_t off)
+{
+	int s = io_slot(fd);
+	if (s < 0) return __real_pwrite(fd, b, n, off);
+	int f = io_point(fd);
+	if (f == 2 || f == 3) { errno = EINTR; return -1; }
+	ssize_t r = __real_pwrite(fd, b, (f == 1 && n > 1) ? 1 : n, off);
+	io_log(s, 1, b, r);
+	return r;
 }
 
 // ---------------------------------------------------------------------------
